@@ -551,6 +551,33 @@ func P_three_requests() {
 	vnd.NoRaces("")
 }
 `)
+	b.WriteString(`
+// three requests in flight on a (1,3) pool: two are held inside rule a (the initial and one additional instance),
+// a third one takes and returns the other additional instance while the host lets the held ones go
+func P_three_in_flight() {
+	apis := zzApis()
+	apis["upd"] = func() {}
+	gp, e := NewGenginePool(1, 3, SortModel, zzVText(1, true, "ab"), apis)
+	zzMust(e, "pool construction")
+	var gate sync.Mutex
+	gate.Lock()
+	hold := func() {
+		gate.Lock()
+		gate.Unlock()
+	}
+	var wg sync.WaitGroup
+	zzClient(gp, &wg, func() { gp.Execute(map[string]interface{}{"req": int64(1), "upd": hold}, true) })
+	zzClient(gp, &wg, func() { gp.ExecuteConcurrent(map[string]interface{}{"req": int64(2), "upd": hold}) })
+	vnd.Quiesce() // both are inside rule a
+	zzClient(gp, &wg, func() { gp.ExecuteSelectedRules(map[string]interface{}{"req": int64(3)}, []string{"a", "b"}) })
+	gate.Unlock()
+	wg.Wait()
+	vnd.Quiesce()
+	vnd.Reach("executed")
+	vnd.NoRaces("")
+}
+`)
+	fam.Instances = append(fam.Instances, Instance{Func: "P_three_in_flight", Stratum: "pool/requests", Desc: "three requests in flight on a (1,3) pool, two held inside a rule", Expect: []string{"executed"}, Nondet: true})
 	fam.Instances = append(fam.Instances, Instance{Func: "P_shared_rule_set", Stratum: "pool/requests", Desc: "two requests executing one rule with every construct kind", Expect: []string{"executed"}, Nondet: true, OneOrd: true})
 	fam.Instances = append(fam.Instances, Instance{Func: "P_two_requests", Stratum: "pool/requests", Desc: "two concurrent pool requests", Expect: []string{"executed"}},
 		Instance{Func: "P_three_requests", Stratum: "pool/requests", Desc: "three pool requests with hand-back", Expect: []string{"executed"}})
